@@ -156,3 +156,86 @@ RAW = [
     (r"HashMap.*::len$", o_len),
     (r"HashMap.*::is_empty$", o_is_empty),
 ]
+
+
+# ---- HashSet as a list of keys under ("set", id)
+
+def _set_of(st, v):
+    v = _deref(st, v)
+    if v is not None and v[0] == "set":
+        l = st.get(-v[1])
+        if l is not None and l[0] == "list":
+            return v[1], list(l[1])
+    return None, None
+
+
+def o_set_insert(ev, st, t, site):
+    sid, items = _set_of(st, _arg(ev, st, t, 0))
+    k = _deref(st, _arg(ev, st, t, 1))
+    if sid is None or k is None:
+        return False
+    new = k not in items
+    if new:
+        items.append(k)
+        st[-sid] = ("list", tuple(items))
+    return _set_dest(st, t, ("const", "true" if new else "false"))
+
+
+def o_set_remove(ev, st, t, site):
+    sid, items = _set_of(st, _arg(ev, st, t, 0))
+    k = _deref(st, _arg(ev, st, t, 1))
+    if sid is None or k is None:
+        return False
+    had = k in items
+    if had:
+        items.remove(k)
+        st[-sid] = ("list", tuple(items))
+    return _set_dest(st, t, ("const", "true" if had else "false"))
+
+
+def o_set_contains(ev, st, t, site):
+    sid, items = _set_of(st, _arg(ev, st, t, 0))
+    k = _deref(st, _arg(ev, st, t, 1))
+    if sid is None or k is None:
+        return False
+    return _set_dest(st, t, ("const", "true" if k in items else "false"))
+
+
+def o_or_default(ev, st, t, site):
+    """`entry.or_default()`: an occupied entry answers its value; for a vacant one the value type's `Default` impl (a
+    crate-local one, evaluated abstractly) provides the value that is stored."""
+    e = _deref(st, _arg(ev, st, t, 0))
+    if e is None or e[0] != "variant" or e[1] not in ("Occupied", "Vacant"):
+        return False
+    inner = dict(e[2]).get(0)
+    mid, items, k = _entry(st, inner)
+    if mid is None:
+        return False
+    i = _find(items, k)
+    if i is not None:
+        return _set_dest(st, t, ("refval", items[i][1]))   # containers inside the value are heap handles: mutations through it are seen
+    vty = (t.get("targs") or [None, None, None])[-1] or ""
+    facts = ev.fn.facts
+    from core import norm, AbsPaths
+    cands = [g for g in facts.fns.values() if g.d.get("name") == "default" and (g.d.get("impl_trait") or "").endswith("Default") and norm(g.d.get("impl_self", "")) == norm(vty)]
+    if len(cands) != 1:
+        return False
+    outs = AbsPaths(facts.unit(cands[0], expand=True), limit=2000, oracles=ev.oracle_specs, raw_oracles=ev.raw_specs).outcomes(state={k_: v_ for k_, v_ in st.items() if isinstance(k_, int) and k_ < 0}, extra_keys=(lambda s_: tuple(sorted((k_, v_) for k_, v_ in s_.items() if isinstance(k_, int) and k_ < 0)),))
+    if len(outs) != 1:
+        return False
+    (v, _, (heap,)) = next(iter(outs))
+    if v is None:
+        return False
+    for k_, v_ in heap:
+        st[k_] = v_
+    items.append((k, v))
+    _put(st, mid, items)
+    return _set_dest(st, t, ("refval", v))
+
+
+RAW += [
+    (r"HashSet.*::insert$", o_set_insert),
+    (r"HashSet.*::remove$", o_set_remove),
+    (r"HashSet.*::contains$", o_set_contains),
+    (r"Entry.*::or_default$", o_or_default),
+]
